@@ -279,6 +279,12 @@ impl<'a> StagesBuilder<'a> {
         let new_reads = new_reads.into_iter();
         let new_writes = new_writes.into_iter();
 
+        // Dependencies in front of the barrier are already satisfied by the
+        // barrier itself; they must not keep later stages from being used.
+        for stage in 0..self.barrier {
+            self.remove_ids(stage, new_dep);
+        }
+
         (self.barrier..self.stages.len())
             .map(|stage| {
                 let conflict = Self::find_conflict(
